@@ -26,6 +26,7 @@ type pb struct {
 	rng  *rand.Rand
 	fork refevm.Fork
 	nres int
+	full bool // access probes always include the call-family measurement
 }
 
 func newPB(rng *rand.Rand, fork refevm.Fork) *pb {
@@ -53,11 +54,15 @@ func (p *pb) measure(f func()) {
 
 // finish emits the result buffer as a log and stores its hash.
 func (p *pb) finish() []byte {
+	p.finishCode()
+	return p.a.Bytes()
+}
+
+func (p *pb) finishCode() {
 	n := 32 * p.nres
 	p.a.Push(n).Push(resBase).Op(pg.LOG0)
 	p.a.Push(n).Push(resBase).Op(pg.KECCAK256).Push(0xaa).Op(pg.SSTORE)
 	p.a.Op(pg.STOP)
-	return p.a.Bytes()
 }
 
 func (p *pb) pushAddr(a refevm.Address) { p.a.PushN(20, a[:]) }
@@ -82,7 +87,7 @@ func (p *pb) accessProbe(addr refevm.Address) {
 			p.a.Op(pg.EXTCODECOPY).Push(0x40).Op(pg.MLOAD)
 		})
 	}
-	if p.rng.Intn(2) == 0 {
+	if p.full || p.rng.Intn(2) == 0 {
 		op := pick(p.rng, byte(pg.CALL), pg.STATICCALL, pg.DELEGATECALL, pg.CALLCODE)
 		gas := pick(p.rng, big.NewInt(0), big.NewInt(2300), big.NewInt(50000), allOnes)
 		for i := 0; i < 2; i++ {
@@ -450,8 +455,41 @@ func ownProgram(g *caseGen, self refevm.Address, selfNonce uint64) []byte {
 	kind := rng.Intn(12)
 	if g.c.Env.GasLimit >= 1<<42 && rng.Intn(2) == 0 {
 		kind = 12
+	} else if len(g.delegated) > 0 && g.fork >= refevm.Prague && rng.Intn(3) == 0 {
+		kind = 13
+	}
+	if kind < 12 && rng.Intn(25) == 0 {
+		// EIP-3860 inside the EVM: CREATE/CREATE2 with init code of exactly the limit (runs the
+		// all-zero init code, i.e. STOP) and one byte above it (exceptional halt of the frame,
+		// therefore performed in a self-call whose failure is recorded)
+		g.tag("own:initcode-limit")
+		op := pick(rng, byte(pg.CREATE), pg.CREATE2)
+		over := p.a.NewLabel()
+		p.a.Op(pg.CALLDATASIZE).JumpIf(over)
+		p.measure(func() {
+			p.a.Push(0).Push(0).Push(1).Push(0).Push(0).Op(pg.ADDRESS).Push(allOnes).Op(pg.CALL)
+		})
+		p.measure(func() {
+			if op == pg.CREATE2 {
+				p.a.Push(7)
+			}
+			p.a.Push(49152).Push(0).Push(0).Op(op)
+		})
+		p.finishCode()
+		p.a.Bind(over)
+		if op == pg.CREATE2 {
+			p.a.Push(7)
+		}
+		p.a.Push(49153).Push(0).Push(0).Op(op, pg.STOP)
+		return p.a.Bytes()
 	}
 	switch {
+	case kind == 13: // EIP-7702: code-reading and call-family operations on delegated accounts
+		g.tag("own:delegated")
+		p.full = true
+		for _, a := range g.delegated {
+			p.accessProbe(a)
+		}
 	case kind == 12: // unbounded self-recursion: reaches the 1024 depth limit when gas allows
 		g.tag("own:recurse")
 		g.recursers = append(g.recursers, self)
@@ -549,6 +587,7 @@ func ownProgram(g *caseGen, self refevm.Address, selfNonce uint64) []byte {
 		}
 	case kind < 6: // storage gas/refund patterns
 		g.tag("own:sstore")
+		g.refunders = append(g.refunders, self)
 		p.sstoreSeq(2 + rng.Intn(8))
 		if rng.Intn(2) == 0 {
 			p.tstoreSeq(1 + rng.Intn(4))
@@ -566,6 +605,9 @@ func ownProgram(g *caseGen, self refevm.Address, selfNonce uint64) []byte {
 				a = g.c.Env.Coinbase
 			default:
 				a = g.univ[rng.Intn(len(g.univ))]
+			}
+			if len(g.delegated) > 0 && rng.Intn(2) == 0 {
+				a = g.delegated[rng.Intn(len(g.delegated))] // EIP-7702 resolution costs
 			}
 			p.accessProbe(a)
 		}
